@@ -530,7 +530,7 @@ def attach_parser_tokenize(prop="C12"):
     from mathy_core.parser import ExpressionParser
 
     def post(snap, a, k, res, exc):
-        self, text = a[0], a[1]
+        self, text = a[0], (a[1] if len(a) > 1 else k.get("input_text"))
         hist = getattr(self, "_vmon_history", None)
         if hist is None or not isinstance(text, str) or _STATE["in_parse"]:
             return
